@@ -452,7 +452,7 @@ Proof. constructor; cbn; intros; auto; try lia; try tauto. Qed.
 Ltac startH s HI HH Hs :=
   destruct s as [ca pe cs cl cr rcf rl fz lo lk fl rq ho po bc dc bo nf nb br]; cbn [step] in Hs; projs; brk Hs;
   try (injection Hs as <-); destruct HI as [Hrc Hloc Hz Hcl Hop Hfr]; destruct HH as [G1 G2 G3 G4 G5 G6 G7 G8];
-  unfold loc, held_files, is_big in *; projs.
+  unfold loc, held_files, is_big, is_virtual in *; projs.
 
 Lemma holder_live s x : Inv s -> In x (holders s) ->
   0 < rc s (h_f x) /\ h_f x < nextf s /\ released s (h_f x) = 0 /\ cnt (h_f x) (local s) + cnt (h_f x) (leaked s) = 0.
@@ -467,7 +467,7 @@ Qed.
 Lemma hpres_open cf s sz s' : Inv s -> HInv cf s -> step cf s (Open sz) = Some s' -> HInv cf s'.
 Proof.
   intros HI HH Hs. pose proof (fun x Hx => holder_live s x HI Hx) as Live. startH s HI HH Hs. projs.
-  constructor; unfold is_big; projs; auto.
+  constructor; unfold is_big, is_virtual; projs; auto.
   - intros x b Hx Hb. destruct (G3 x b Hx Hb) as [A B]. split; [exact A|].
     destruct (Live x Hx) as (_ & L & _). unfold upd. destruct (Nat.eqb_spec (h_f x) nf); [lia|exact B].
   - intros f b P. unfold upd. destruct (Nat.eqb_spec f nf) as [->|]; [rewrite (G6 nf) in P by lia; cbn in P; lia|eauto].
@@ -477,14 +477,14 @@ Qed.
 
 Lemma hpres_openfail cf s f s' : Inv s -> HInv cf s -> step cf s (OpenFail f) = Some s' -> HInv cf s'.
 Proof.
-  intros HI HH Hs. startH s HI HH Hs. constructor; unfold is_big; projs; auto.
+  intros HI HH Hs. startH s HI HH Hs. constructor; unfold is_big, is_virtual; projs; auto.
   intros x P. apply G7. pose proof (cnt_remove1 f x lo) as R. rewrite E in R. cbn [cnt] in P. destruct (Nat.eqb f x); lia.
 Qed.
 
 Lemma hpres_openabort cf s f s' : Inv s -> HInv cf s -> step cf s (OpenAbort f) = Some s' -> HInv cf s'.
 Proof.
   intros HI HH Hs. startH s HI HH Hs. apply memb_cnt in E.
-  constructor; unfold is_big; projs; auto.
+  constructor; unfold is_big, is_virtual; projs; auto.
   - intros b. rewrite (G4 b). unfold upd. destruct (Nat.eqb_spec (bo b) f) as [Eo|]; [|reflexivity].
     rewrite Eo. rewrite (G7 f) by lia. cbn. lia.
   - intros x P. apply G7. pose proof (cnt_remove1 f x lo) as R. destruct (memb f lo); destruct (Nat.eqb f x); lia.
@@ -492,7 +492,7 @@ Qed.
 
 Lemma hpres_get cf s k h s' : Inv s -> HInv cf s -> step cf s (Get k h) = Some s' -> HInv cf s'.
 Proof.
-  intros HI HH Hs. startH s HI HH Hs. constructor; unfold is_big; projs; auto.
+  intros HI HH Hs. startH s HI HH Hs. constructor; unfold is_big, is_virtual; projs; auto.
   intros x b [<-|Hx] Hb; [discriminate|eauto].
 Qed.
 
@@ -501,7 +501,7 @@ Proof.
   intros HI HH Hs. startH s HI HH Hs; apply negb_false_iff in E;
     assert (Rx : forall x, cnt x (remove1 f lo) + (if Nat.eqb f x then 1 else 0) = cnt x lo)
       by (intros x; pose proof (cnt_remove1 f x lo) as R; rewrite E in R; exact R);
-    (constructor; unfold is_big; projs; auto;
+    (constructor; unfold is_big, is_virtual; projs; auto;
      [intros x b [<-|Hx] Hb; [discriminate|eauto]
      |intros x P; apply G7; specialize (Rx x); destruct (Nat.eqb f x); lia]).
 Qed.
@@ -510,7 +510,7 @@ Lemma hpres_trivial cf s l s' : Inv s -> HInv cf s ->
   match l with CleanTick _ | CloseBegin | CloseCollect => True | _ => False end ->
   step cf s l = Some s' -> HInv cf s'.
 Proof.
-  intros HI HH Hl Hs. destruct l; try contradiction; startH s HI HH Hs; constructor; unfold is_big; projs; auto.
+  intros HI HH Hl Hs. destruct l; try contradiction; startH s HI HH Hs; constructor; unfold is_big, is_virtual; projs; auto.
 Qed.
 
 Lemma in_del_holder h l x : In x (del_holder h l) -> In x l.
@@ -528,7 +528,7 @@ Proof.
   - (* a new handle *)
     assert (Hp : po hf = []) by (destruct (po hf) as [|a r]; [reflexivity|cbn in E3; destruct (rev r); discriminate]).
     assert (Zn : cnt nb (hhs ho) + cnt nb (po (bo nb)) + dc nb = 0) by (rewrite G1; destruct (Nat.ltb_spec nb nb); lia).
-    constructor; unfold is_big; projs; auto.
+    constructor; unfold is_big, is_virtual; projs; auto.
     + intros b. rewrite hhs_cons. cbn [h_b hbit]. specialize (Hd b). specialize (G1 b). unfold upd.
       destruct (Nat.eqb_spec b nb) as [->|N].
       * rewrite Nat.eqb_refl, Hp. cbn [cnt]. destruct (Nat.ltb_spec nb (S nb)); lia.
@@ -549,7 +549,7 @@ Proof.
     { destruct (Nat.eq_dec hf (bo b)) as [->|N]; [reflexivity|]. pose proof (G2 b hf N) as Z. rewrite Hp, cnt_app in Z. cbn in Z.
       rewrite Nat.eqb_refl in Z. lia. }
     assert (Pc : forall x, cnt x (po hf) = cnt x (rev l) + (if Nat.eqb b x then 1 else 0)) by (intros x; rewrite Hp, cnt_app; cbn; lia).
-    constructor; unfold is_big; projs; auto.
+    constructor; unfold is_big, is_virtual; projs; auto.
     + intros x. rewrite hhs_cons. cbn [h_b hbit]. specialize (Hd x). specialize (G1 x). unfold upd.
       destruct (Nat.eqb_spec (bo x) hf) as [Eo|No]; [|destruct (Nat.eqb_spec b x); [subst; congruence|lia]]. rewrite Eo in G1. rewrite Pc in G1. lia.
     + intros x f N. unfold upd. destruct (Nat.eqb_spec f hf) as [->|]; [|auto]. pose proof (G2 x hf N) as Z. rewrite Pc in Z. lia.
@@ -570,12 +570,12 @@ Proof.
   intros HI HH Hs.
   assert (Live := fun x Hx => holder_live s x HI Hx).
   startH s HI HH Hs; pose proof (find_holder_in _ _ _ E) as Hin; destruct (Live _ Hin) as (Lrc & Llt & Lrel & Lpriv); cbn [h_f] in *.
-  constructor; unfold is_big; projs; auto.
+  constructor; unfold is_big, is_virtual; projs; auto.
   destruct hb as [b|].
   - pose proof (holder_handle_pos _ _ b Hin eq_refl) as P. specialize (G1 b). specialize (G4 b).
     assert (Z : cnt b (po (bo b)) = 0 /\ dc b = 0) by (destruct (Nat.ltb b nb); lia). destruct Z as [Z1 Z2].
     rewrite Z1, Z2 in G4. cbn in G4. rewrite G4. cbn. exact G8.
-  - rewrite Lrel. cbn. destruct (if osfs cf then _ else _); exact G8.
+  - rewrite Lrel. cbn. destruct (fz hf <? 0)%Z; [exact G8|]. destruct (if osfs cf then _ else _); exact G8.
 Qed.
 
 Lemma hpres_dec cf s h sf s' : Inv s -> HInv cf s -> step cf s (Dec h sf) = Some s' -> HInv cf s'.
@@ -588,14 +588,14 @@ Proof.
   destruct hb as [b|]; [destruct sf|].
   - (* seek failed: the handle is closed by its reader *)
     destruct (G3 _ b Hin eq_refl) as [Ho Hbig]. cbn [h_f] in *.
-    constructor; unfold is_big; projs; auto.
+    constructor; unfold is_big, is_virtual; projs; auto.
     + intros x. specialize (Hd x). specialize (G1 x). cbn [hbit] in Hd. unfold upd. destruct (Nat.eqb_spec x b) as [->|N].
       * rewrite Nat.eqb_refl in Hd. lia.
       * destruct (Nat.eqb_spec b x); [congruence|]. lia.
     + intros x. specialize (G4 x). unfold upd. destruct (Nat.eqb_spec x b) as [->|]; lia.
   - (* handle returned to ff.bigFiles *)
     destruct (G3 _ b Hin eq_refl) as [Ho Hbig]. cbn [h_f] in *.
-    constructor; unfold is_big; projs; auto.
+    constructor; unfold is_big, is_virtual; projs; auto.
     + intros x. specialize (Hd x). specialize (G1 x). cbn [hbit] in Hd. unfold upd.
       destruct (Nat.eqb_spec (bo x) hf) as [Eo|No].
       * rewrite cnt_app. cbn [cnt]. rewrite Eo in G1. lia.
@@ -608,22 +608,22 @@ Proof.
     + intros f L. unfold upd. destruct (Nat.eqb_spec f hf) as [->|]; [lia|auto].
     + intros f P. unfold upd. destruct (Nat.eqb_spec f hf) as [->|]; [|apply G7; destruct (cl && (n =? 0)); exact P].
       destruct (cl && (n =? 0)); lia.
-  - constructor; unfold is_big; projs; auto.
+  - constructor; unfold is_big, is_virtual; projs; auto.
     + intros x. specialize (Hd x). specialize (G1 x). cbn [hbit] in Hd. lia.
 Qed.
 
 Lemma hpres_release cf s f s' : Inv s -> HInv cf s -> step cf s (Release f) = Some s' -> HInv cf s'.
 Proof.
   intros HI HH Hs. startH s HI HH Hs.
-  constructor; unfold is_big; projs; auto.
+  constructor; unfold is_big, is_virtual; projs; auto.
   intros b. specialize (G4 b). unfold upd.
   destruct (Nat.eqb_spec (bo b) f) as [Eo|No].
-  - rewrite Eo in *. destruct (if osfs cf then _ else _) eqn:Big.
+  - rewrite Eo in *. destruct (if (fz f <? 0)%Z then _ else _) eqn:Big.
     + rewrite bump_all_spec. nia.
     + assert (Z : cnt b (po f) = 0).
       { destruct (cnt b (po f)) eqn:Ec; [reflexivity|]. assert (P : 0 < cnt b (po f)) by lia. apply G5 in P. congruence. }
       rewrite Z in *. lia.
-  - destruct (if osfs cf then _ else _); [|exact G4]. rewrite bump_all_spec, (G2 b f); [lia|congruence].
+  - destruct (if (fz f <? 0)%Z then _ else _); [|exact G4]. rewrite bump_all_spec, (G2 b f); [lia|congruence].
 Qed.
 
 Theorem hinv_step cf s l s' : Inv s -> HInv cf s -> step cf s l = Some s' -> HInv cf s'.
